@@ -366,6 +366,33 @@ fn interrupted_backup(work: &Path, arch: &Path, src: &Path, params: &BackupParam
     true
 }
 
+/// A backup killed between the two micro-steps of its FIRST index hunk write: leaves band `b` with a head and
+/// a zero-length hunk 0.  Returns false if no crash point gives that state.
+fn die_on_first_hunk(work: &Path, arch: &Path, src: &Path, params: &BackupParams, b: u32) -> bool {
+    let scratch = work.join("scratch-arch");
+    let fresh = |scratch: &Path| {
+        if scratch.exists() {
+            fs::remove_dir_all(scratch).unwrap();
+        }
+        copy_dir(arch, scratch);
+    };
+    fresh(&scratch);
+    let dry = real_backup(&scratch, src, params, IceptConfig::default());
+    let hunk0 = format!("{}/i/00000/000000000", band_name(b));
+    for k in 0..dry.steps {
+        fresh(&scratch);
+        let _ = real_backup(&scratch, src, params, IceptConfig { crash_at: Some(k), ..Default::default() });
+        let zero = fs::metadata(scratch.join(&hunk0)).map(|m| m.len() == 0).unwrap_or(false);
+        if zero {
+            let _ = fs::remove_dir_all(&scratch);
+            let _ = real_backup(arch, src, params, IceptConfig { crash_at: Some(k), ..Default::default() });
+            return fs::metadata(arch.join(&hunk0)).map(|m| m.len() == 0).unwrap_or(false);
+        }
+    }
+    let _ = fs::remove_dir_all(&scratch);
+    false
+}
+
 pub fn run(tier: &str, seed: u64, report: &mut Report) {
     let thorough = tier == "thorough";
     nix::sys::stat::umask(nix::sys::stat::Mode::from_bits_truncate(0o022));
@@ -384,7 +411,8 @@ pub fn run(tier: &str, seed: u64, report: &mut Report) {
         create_archive(&arch);
         // ---- scenario: 0 = one complete version; 1 = two complete versions with a dir->symlink swap;
         //      2 = the D11 shape exactly; 3 = generated tree, swap, second backup interrupted before its tail
-        let scenario = if i == 0 { 2 } else { [0, 0, 1, 3, 3, 2][rng.below(6)] };
+        //      4 = like 3, but an EARLIER attempt died while writing its first hunk (zero-length hunk 0) in between
+        let scenario = if i == 0 { 2 } else if i == 1 { 4 } else { [0, 0, 1, 3, 3, 2, 4][rng.below(7)] };
         let mut tree = if scenario == 2 {
             let mut t = Tree::default();
             t.nodes.insert("/".into(), Node { comps: vec![], kind: NodeKind::Dir, mode: 0o755, mtime_ns: OLD, uid: 0, gid: 0 });
@@ -425,6 +453,11 @@ pub fn run(tier: &str, seed: u64, report: &mut Report) {
                     if !b1.result.starts_with("result ok") {
                         continue;
                     }
+                } else if scenario == 4 {
+                    if die_on_first_hunk(work.path(), &arch, &src, &params, 1) && interrupted_backup(work.path(), &arch, &src, &params) && band_incomplete(&arch, 2) {
+                        report.hit("scenario4:zero-length-hunk-band-in-between");
+                        interrupted_band = Some(2);
+                    }
                 } else if interrupted_backup(work.path(), &arch, &src, &params) && band_incomplete(&arch, 1) {
                     interrupted_band = Some(1);
                 }
@@ -432,7 +465,7 @@ pub fn run(tier: &str, seed: u64, report: &mut Report) {
         }
         let (state, _) = abstract_archive(&arch);
         session.load_store(&state);
-        let scenario_name = ["one-version", "dir-to-symlink-two-complete-versions", "D11-shape", "dir-to-symlink-second-backup-interrupted"][scenario];
+        let scenario_name = ["one-version", "dir-to-symlink-two-complete-versions", "D11-shape", "dir-to-symlink-second-backup-interrupted", "dir-to-symlink-two-interrupted-backups-first-died-on-hunk-0"][scenario];
         let case_base = json!({"case_seed": case_seed, "scenario": scenario_name, "swapped": swapped,
             "tree": tree.nodes.values().map(|n| json!({"apath": n.apath(), "kind": match &n.kind { NodeKind::File(c) => format!("file:{}", c.len()), NodeKind::Dir => "dir".into(), NodeKind::Symlink(t) => format!("symlink:{t}") }})).collect::<Vec<_>>()});
         if i < 3 {
